@@ -13,6 +13,7 @@ import (
 	"strings"
 	"time"
 
+	"github.com/nspcc-dev/dbft"
 	"github.com/nspcc-dev/neo-go/pkg/core"
 	"github.com/nspcc-dev/neo-go/pkg/core/block"
 	"github.com/nspcc-dev/neo-go/pkg/core/fee"
@@ -69,6 +70,11 @@ type run struct {
 	commitAt  map[uint32]map[int]byte // height -> validator -> view in which it sent its Commit
 	hadAsync  bool                    // the case had an adversarial prefix
 	tight     bool                    // small MaxBlockSystemFee / MaxBlockSize: pools exceed a block
+	tn        *txNames
+	quiet     bool // scripted case: the fair phase injects no transactions of its own
+	forged    bool // the payload being delivered was crafted by the harness (trace op `forge`)
+	probeNonce int
+	emits     map[string]int // "<node>/<type>" -> payloads broadcast so far
 }
 
 func (r *run) fail(key, format string, a ...any) {
@@ -105,18 +111,59 @@ func (r *run) settle(nd *node) {
 		}
 		return
 	}
-	acts, errs := nd.collect()
+	acts, errs, hints := nd.collect()
 	for _, e := range errs {
 		// an Error/Fatal-level log line of the service itself
 		r.o.Count("service-error-log")
 		r.fail("service-error", "node %d logged %s", nd.idx, e)
 	}
-	for _, a := range acts {
+	// decode what was broadcast first: a proposal made in this event must be known to the model
+	// (its hash contains a random nonce) before the model computes the node's reaction
+	msgs := make([]*msg, len(acts))
+	fresh := 0
+	for i, a := range acts {
+		if a.kind != 'E' {
+			continue
+		}
+		m, err := r.dec.decode(a.ext, nd)
+		if err != nil {
+			r.fail("emit-undecodable", "node %d broadcast a payload its own decoder rejects: %v", nd.idx, err)
+			continue
+		}
+		msgs[i] = m
+		if m.typ == dbft.PrepareRequestType {
+			fresh = r.dec.nm.prop[m.hash]
+		}
+	}
+	for _, pr := range r.dec.newProps {
+		sroot := 0
+		if r.cl.sr {
+			sroot = 999998
+			if pr.srOK {
+				sroot = r.dec.propOfBlock(pr.prev)
+			}
+		}
+		txs := ""
+		for _, h := range pr.txs {
+			txs += " " + r.tn.name(h)
+		}
+		r.line(fmt.Sprintf("prop %d %d %d %d %d %d %d %d %d%s", pr.num, pr.h, pr.v, pr.from, pr.tstamp/1000000,
+			r.dec.propOfBlock(pr.prev), sroot, pr.ver, len(pr.txs), txs))
+	}
+	r.dec.newProps = nil
+	hs := ""
+	for _, h := range hints {
+		hs += fmt.Sprintf(" %d", h)
+	}
+	r.line(fmt.Sprintf("hint %d %d %d %d%s", nd.idx, nd.evNow, fresh, len(hints), hs))
+	if len(hints) > 1 {
+		r.o.Count("event:nested-onreceive")
+	}
+	for i, a := range acts {
 		switch a.kind {
 		case 'E':
-			m, err := r.dec.decode(a.ext, nd)
-			if err != nil {
-				r.fail("emit-undecodable", "node %d broadcast a payload its own decoder rejects: %v", nd.idx, err)
+			m := msgs[i]
+			if m == nil {
 				continue
 			}
 			if m.from != nd.idx {
@@ -124,6 +171,10 @@ func (r *run) settle(nd *node) {
 			}
 			r.line(fmt.Sprintf("emit %d %s", nd.idx, m.desc))
 			r.o.Count("emit:" + m.desc[:2])
+			if r.emits == nil {
+				r.emits = map[string]int{}
+			}
+			r.emits[fmt.Sprintf("%d/%s", nd.idx, m.desc[:2])]++
 			if m.v > r.maxView {
 				r.maxView = m.v
 			}
@@ -141,7 +192,13 @@ func (r *run) settle(nd *node) {
 		case 'P':
 			r.onPut(nd, a.put)
 		case 'V':
-			r.line(fmt.Sprintf("view %d %d %d", nd.idx, a.hv.h, a.hv.v))
+			r.line(fmt.Sprintf("view %d %d %d %d", nd.idx, a.hv.h, a.hv.v, int64(a.dur)))
+		case 'X':
+			r.line(fmt.Sprintf("ext %d %d", nd.idx, int64(a.dur)))
+		case 'Q':
+			r.line(fmt.Sprintf("rtx %d %s", nd.idx, r.tn.list(a.req)))
+		case 'S':
+			r.line(fmt.Sprintf("stx %d", nd.idx))
 		}
 	}
 	for _, s := range r.dec.doubleProposal {
@@ -150,6 +207,8 @@ func (r *run) settle(nd *node) {
 	r.dec.doubleProposal = nil
 	_, th, tv, _ := nd.tm.state()
 	r.o.Line(fmt.Sprintf("st %d", nd.idx), fmt.Sprintf("%d %d", th, tv))
+	// the machine model's state against the real dBFT context
+	r.o.Line(fmt.Sprintf("obs %d", nd.idx), r.observe(nd))
 }
 
 // onPut handles a block the node's consensus collected and handed to its ledger.
@@ -157,23 +216,33 @@ func (r *run) onPut(nd *node, p putResult) {
 	b := p.b
 	name := r.dec.nm.b(b.Hash())
 	first, seen := r.committed[b.Index]
+	rejected := p.err != nil && !errors.Is(p.err, core.ErrAlreadyExists)
 	if !seen {
-		r.committed[b.Index] = b
+		if !rejected { // a block the node's own ledger turned down is not relayed to the others
+			r.committed[b.Index] = b
+		}
 	} else if first.Hash() != b.Hash() {
 		r.fail("fork", "height %d: validators committed different blocks %s and %s", b.Index, first.Hash().StringLE(), b.Hash().StringLE())
 	}
 	switch {
 	case p.err == nil:
-		r.line(fmt.Sprintf("accept %d %d %s", nd.idx, b.Index, name))
+		r.line(fmt.Sprintf("accept %d %d %s ok", nd.idx, b.Index, name))
 	case errors.Is(p.err, core.ErrAlreadyExists):
 		// the ledger already has a block at this height (it arrived by relay first)
 		if nd.bc.GetHeaderHash(b.Index) != b.Hash() {
 			r.fail("fork", "height %d: node %d committed %s but its ledger holds %s", b.Index, nd.idx, b.Hash().StringLE(), nd.bc.GetHeaderHash(b.Index).StringLE())
 		}
-		r.line(fmt.Sprintf("accept %d %d %s", nd.idx, b.Index, name))
+		r.line(fmt.Sprintf("accept %d %d %s dup", nd.idx, b.Index, name))
 	default:
-		r.fail("commit-rejected", "height %d: node %d's own ledger rejected the block its consensus committed: %v", b.Index, nd.idx, p.err)
-		r.line(fmt.Sprintf("accept %d %d %s", nd.idx, b.Index, name))
+		key := "commit-rejected"
+		if j, jv, ok := r.relabelledSigner(nd, b); ok {
+			key = "relabelled-commit-witness"
+			r.fail(key, "height %d view %d: node %d's consensus assembled block %s with validator %d's Commit signature, which signs the header of view %d (validator %d is frozen there); the Commit reached node %d inside a RecoveryMessage of view %d, was re-labelled with that view (recovery_message.go GetCommits ignores commitCompact.ViewNumber) and was never checked against the header (dbft.go:355-357: stored commits are checked before the PrepareRequest is stored); the node's own ledger rejects the block: %v",
+				b.Index, viewOf(b, r.cl.n), nd.idx, b.Hash().StringLE(), j, jv, j, nd.idx, viewOf(b, r.cl.n), p.err)
+		} else {
+			r.fail(key, "height %d: node %d's own ledger rejected the block its consensus committed: %v", b.Index, nd.idx, p.err)
+		}
+		r.line(fmt.Sprintf("accept %d %d %s rej", nd.idx, b.Index, name))
 	}
 	r.o.Count("block-committed")
 }
@@ -208,7 +277,12 @@ func (r *run) deliver(i int, remove bool, bypassPool bool) {
 			return
 		}
 	}
-	r.line(fmt.Sprintf("deliver %d %s", nd.idx, fl.m.desc))
+	r.pre(nd)
+	op := "deliver"
+	if r.forged {
+		op = "forge"
+	}
+	r.line(fmt.Sprintf("%s %d %s", op, nd.idx, fl.m.desc))
 	r.o.Count("deliver:" + fl.m.desc[:2])
 	if err := nd.srv.OnPayload(e); err != nil {
 		r.fail("onpayload-error", "node %d OnPayload(%s): %v", nd.idx, fl.m.desc, err)
@@ -260,6 +334,7 @@ func (r *run) fireTimer(nd *node) {
 	if !nd.tm.fire() {
 		return
 	}
+	r.pre(nd) // after fire(): the clock has moved to the deadline
 	r.line(fmt.Sprintf("timeout %d %d %d", nd.idx, h, v))
 	r.o.Count("timeout")
 	r.settle(nd)
@@ -283,6 +358,7 @@ func (r *run) relay(nd *node) bool {
 		r.fail("block-wire", "committed block %d does not survive its wire form: %v", h, br.Err)
 		return false
 	}
+	r.pre(nd)
 	err := nd.bc.AddBlock(nb)
 	if err != nil {
 		r.fail("relay-rejected", "height %d: node %d's ledger rejects a block committed by a validator: %v", h, nd.idx, err)
@@ -319,6 +395,9 @@ func (r *run) newTx(vub uint32, conflicts *util.Uint256) *transaction.Transactio
 	netFee, sizeDelta := fee.Calculate(bc.GetBaseExecFee(), script)
 	size += sizeDelta
 	tx.NetworkFee = netFee + int64(size)*bc.FeePerByte() + bc.CalculateAttributesFee(tx) + int64(r.r.Intn(7))*1000
+	if conflicts != nil {
+		tx.NetworkFee += 50000 // outbids whatever it names
+	}
 	buf := io.NewBufBinWriter()
 	cnt := 0
 	for _, pub := range pubs {
@@ -338,21 +417,31 @@ func (r *run) newTx(vub uint32, conflicts *util.Uint256) *transaction.Transactio
 
 // injectTx makes a new transaction and puts it into the mempools of the given nodes.
 func (r *run) injectTx(to []int) {
-	maxH := uint32(0)
-	for _, nd := range r.cl.nodes {
-		if h := nd.bc.BlockHeight(); h > maxH {
-			maxH = h
-		}
-	}
 	var conf *util.Uint256
 	if len(r.txOrder) > 0 && r.r.Chance(1, 8) {
 		h := r.txOrder[r.r.Intn(len(r.txOrder))]
 		conf = &h
 		r.o.Count("tx:conflicting")
 	}
+	r.injectTxTo(to, conf)
+}
+
+func (r *run) countEmits(i int, typ string) int { return r.emits[fmt.Sprintf("%d/%s", i, typ)] }
+
+// injectTxTo makes a new transaction (naming `conf` in a Conflicts attribute, if given, and then paying
+// more than any other generated transaction) and pools it on the given nodes.
+func (r *run) injectTxTo(to []int, conf *util.Uint256) util.Uint256 {
+	maxH := uint32(0)
+	for _, nd := range r.cl.nodes {
+		if h := nd.bc.BlockHeight(); h > maxH {
+			maxH = h
+		}
+	}
 	tx := r.newTx(maxH+20+uint32(r.r.Intn(5)), conf)
 	r.txs[tx.Hash()] = tx
 	r.txOrder = append(r.txOrder, tx.Hash())
+	r.tn.n[tx.Hash()] = len(r.tn.n) + 1
+	r.line(fmt.Sprintf("txinfo %s %d %d", r.tn.name(tx.Hash()), tx.SystemFee, tx.Size()))
 	for _, j := range to {
 		err := r.cl.nodes[j].bc.PoolTx(tx)
 		if err != nil {
@@ -361,6 +450,7 @@ func (r *run) injectTx(to []int) {
 			r.o.Count("tx:pooled")
 		}
 	}
+	return tx.Hash()
 }
 
 // giveTx serves one transaction the node's service asked for (Config.RequestTx), the way
@@ -394,7 +484,8 @@ func (r *run) giveTx(nd *node, once bool) bool {
 		r.fail("tx-wire", "tx does not survive its wire form: %v", err)
 		return false
 	}
-	r.line(fmt.Sprintf("tx %d", nd.idx))
+	r.pre(nd)
+	r.line(fmt.Sprintf("tx %d %s", nd.idx, r.tn.name(h)))
 	r.o.Count("tx:given")
 	// a remote peer answers the server's getdata: P2P `tx` message -> handleTxCmd -> txIn ->
 	// txHandlerLoop (consensus callback if the hash is on the server's wish list, then the pool)
@@ -592,7 +683,7 @@ func (r *run) fair(blocks int) {
 			// tight limits enough of them to exceed a block
 			// sometimes a burst that (almost) only the next primary holds: its proposal then carries
 			// several transactions the backups have to fetch one after another
-			if lo == hi && r.r.Chance(1, 3) {
+			if lo == hi && !r.quiet && r.r.Chance(1, 3) {
 				pi := int(hi+1) % r.cl.n
 				for i := 2 + r.r.Intn(2); i > 0; i-- {
 					to := []int{pi}
@@ -605,7 +696,7 @@ func (r *run) fair(blocks int) {
 				}
 				r.o.Count("fair:primary-only-burst")
 			}
-			for i := r.r.Intn(3) + 2*b2i(r.tight); i > 0 && lo == hi; i-- {
+			for i := r.r.Intn(3) + 2*b2i(r.tight); i > 0 && lo == hi && !r.quiet; i-- {
 				var to []int
 				all := r.r.Chance(2, 3)
 				for j := range r.cl.nodes {
@@ -619,6 +710,10 @@ func (r *run) fair(blocks int) {
 		}
 		first = false
 		if lo >= target {
+			return
+		}
+		if hi >= target+20 {
+			r.fail("lagging-node", "fair schedule: the chain is at height %d but a validator is still at %d although every committed block is relayed to it", hi, lo)
 			return
 		}
 		// the known lock is permanent once its shape is reached: report it without burning the budget
@@ -835,4 +930,23 @@ func (r *run) final() {
 			}
 		}
 	}
+}
+
+// relabelledSigner tells whether the node's dBFT context holds, labelled with the block's view, the Commit
+// of a validator that really sent its Commit in another view of this height.
+func (r *run) relabelledSigner(nd *node, b *block.Block) (int, byte, bool) {
+	db := dbftOf(nd.srv)
+	if db == nil {
+		return 0, 0, false
+	}
+	v := viewOf(b, r.cl.n)
+	for j, cp := range db.Context.CommitPayloads {
+		if cp == nil || cp.ViewNumber() != v {
+			continue
+		}
+		if jv, ok := r.commitAt[b.Index][j]; ok && jv != v {
+			return j, jv, true
+		}
+	}
+	return 0, 0, false
 }
